@@ -364,7 +364,7 @@ def eq_events(specs_list, rng, evs, n_pairs):
             add(c, s, "copy_sym")
         for ch in replacements(s):
             oc, c = outcome(lambda ch=ch, s=s: s.replace(**ch[1]))
-            if oc == "ok" and type(c) is type(s):
+            if oc == "ok" and type(c) is type(s) and spec_desc(c) != spec_desc(s):   # (no visible change on size-0 shapes)
                 add(s, c, "one_attribute_changed")
                 add(c, s, "one_attribute_changed_sym")
     for kind, lst in by_kind.items():
